@@ -468,7 +468,10 @@ func rulesC19(c *Ctx) {
 		for _, r := range rr.Returns() {
 			if len(r.Results) == 2 && !isNilIdent(r.Results[1]) {
 				if hasAtom(rg.GuardsAt(rg.VertexOf(r)), func(a Atom) bool {
-					return AtomSaysNil(a, true, func(e ast.Expr) bool { s, ok := ast.Unparen(e).(*ast.SelectorExpr); return ok && s.Sel.Name == "Contents" })
+					return AtomSaysNil(a, true, func(e ast.Expr) bool {
+						s, ok := ast.Unparen(e).(*ast.SelectorExpr)
+						return ok && s.Sel.Name == "Contents"
+					})
 				}) {
 					okRR = true
 				}
